@@ -549,6 +549,14 @@ func (x *exec) callWrites(w *writeSet, cc *ssa.CallCommon) {
 		w.all = true
 		return
 	}
+	switch FuncKey(callee) {
+	case "fmt.Errorf", "errors.New":
+		// modelled inside govc (see special): a new error value, nothing else changes
+		w.heaps["next"] = smt.Int
+		return
+	case "math.Float32bits", "math.Float32frombits", "math.Float64bits", "math.Float64frombits":
+		return
+	}
 	c := x.p.ContractOf(callee)
 	if c == nil {
 		w.all = true
